@@ -121,7 +121,7 @@ def run(chk, tmp, prop):
             chk.add_tlc(f"GrogBuildGen shaped ({shape}): {label}", res, histories=len(hs))
             be.run_histories(chk, tmp, grog, hs, prop, lit, f"shaped {shape} {label}")
             be.run_histories(chk, tmp, grog, hs, prop, False, f"shaped {shape}, first output digest delayed in every other build: {label}",
-                             opts_of=lambda i: {"workers": 1 + i % 4, "hash": ["", "sha256"][i % 2], "delay_alt": "outhash.pr_p_o0/1=60"})
+                             opts_of=lambda i: {"workers": 1 + i % 4, "hash": ["", "sha256"][i % 2], "delay_alt": "outhash.pr_p_o0/1=60,outwrite.pr_p_o0/1=60"})
     if prop == "C13":
         # the taint marker is cleared by a goroutine nobody waits for: with a slow backend Delete (modelled by a delay at the
         # hook in front of it) the process may exit first; the specification says the successful execution consumes the taint
